@@ -218,7 +218,13 @@ struct M17FrameDecoder
     {
         output_buffer.lich.fill(0);
         // Read the 4 12-bit codewords from LICH into buffers.lich.
-        if (!unpack_lich(buffer)) return DecodeResult::FAIL;
+        if (!unpack_lich(buffer))
+        {
+            // Uncorrectable LICH: report a high cost so that the caller does not
+            // keep acting on the cost of an earlier frame.
+            viterbi_cost = 128;
+            return DecodeResult::FAIL;
+        }
 
         output_buffer.type = FrameType::LICH;
         callback_(output_buffer, 0);
